@@ -6,6 +6,13 @@ except ImportError:
 from . import util
 
 
+def _h5obj(entity):
+    """The HDF5 object (group, or dataset for a Property) behind an entity."""
+    backend = entity._h5group
+    obj = getattr(backend, "group", None)
+    return obj if obj is not None else backend.h5obj
+
+
 class Container:
     """
     Container acts as an interface to container groups in the backend. In the
@@ -58,7 +65,7 @@ class Container:
                     self._itemclass.__name__)
             )
 
-        self._file._h5group.delete_all([item.id])
+        self._file._h5group.delete_all([item.id], [_h5obj(item)])
 
     def __iter__(self):
         for group in self._backend:
@@ -123,9 +130,11 @@ class SectionContainer(Container):
 
         # collect all IDs under item and send them for deletion, starting from
         # the root block
-        secids = [s.id for s in item.find_sections()]
+        secs = item.find_sections()
+        secids = [s.id for s in secs]
 
-        self._file._h5group.delete_all(secids)
+        self._file._h5group.delete_all(secids,
+                                       [_h5obj(s) for s in secs])
 
 
 class SourceContainer(Container):
@@ -146,9 +155,11 @@ class SourceContainer(Container):
 
         # collect all IDs under item and send them for deletion, starting from
         # the root block
-        srcids = [s.id for s in item.find_sources()]
+        srcs = item.find_sources()
+        srcids = [s.id for s in srcs]
         srcids.append(item.id)
-        self._file._h5group.delete_all(srcids)
+        self._file._h5group.delete_all(srcids,
+                                       [_h5obj(s) for s in srcs])
 
 
 class LinkContainer(Container):
